@@ -148,7 +148,7 @@ def aggregate(prop, a, reports, jobs, seed, wall):
             if entry is not None:
                 region = entry.get("region")
                 if region is None:
-                    rp = runner.replay(ob["contract"], case, ob["clause"], ob["params"], ob.get("raised"))
+                    rp = runner.replay(ob["contract"], case, ob["clause"], ob["params"], ob.get("raised"), ob.get("schedule"))
                     if rp["confirmed"]:
                         known_hits.append((oid, entry, ob, rp))
                     else:
@@ -159,14 +159,14 @@ def aggregate(prop, a, reports, jobs, seed, wall):
                     confirm_faults.append((oid, ob, {"observation": f"known finding names unknown region {region}"}))
                     continue
                 if rg["fails_inside"] == "sat":
-                    rp = runner.replay(ob["contract"], case, ob["clause"], rg["inside_params"], ob.get("raised"))
+                    rp = runner.replay(ob["contract"], case, ob["clause"], rg["inside_params"], ob.get("raised"), rg.get("inside_schedule"))
                     if rp["confirmed"]:
                         known_hits.append((oid, entry, ob, rp))
                     else:
                         confirm_faults.append((oid, ob, rp))
                 if rg["fails_outside"] == "sat":
                     ob2 = dict(ob, params=rg["outside_params"], schedule=rg["outside_schedule"])
-                    rp = runner.replay(ob["contract"], case, ob["clause"], ob2["params"], ob.get("raised"))
+                    rp = runner.replay(ob["contract"], case, ob["clause"], ob2["params"], ob.get("raised"), ob2.get("schedule"))
                     if rp["confirmed"]:
                         violations.append((oid, ob2, rp))
                     else:
@@ -174,7 +174,7 @@ def aggregate(prop, a, reports, jobs, seed, wall):
                 elif rg["fails_outside"] != "unsat":
                     summary[oid] = "unknown"
                 continue
-            rp = runner.replay(ob["contract"], case, ob["clause"], ob["params"], ob.get("raised"))
+            rp = runner.replay(ob["contract"], case, ob["clause"], ob["params"], ob.get("raised"), ob.get("schedule"))
             if rp["confirmed"]:
                 violations.append((oid, ob, rp))
             else:
@@ -360,7 +360,7 @@ def write_evidence(prop, a, seed, summary, obligations, reports, known_hits, vio
 def do_replay(path):
     with open(os.path.join(ROOT, path) if not os.path.isabs(path) else path) as f:
         d = json.load(f)
-    rp = runner.replay(d["contract"], d["case"], d["clause"], d["params"], d.get("raised"))
+    rp = runner.replay(d["contract"], d["case"], d["clause"], d["params"], d.get("raised"), d.get("schedule"))
     print(json.dumps(rp, indent=1, default=str))
     if rp["confirmed"]:
         print(f"VIOLATION property={d['property']} replay={path}")
